@@ -292,7 +292,8 @@ def build(j, fns):
             return glom.Match(B(j['s']), default=B(j['dflt']))
         return glom.Match(B(j['s']))
     if k == 'group':
-        return glom.Group(B(j['s']))
+        from glom.grouping import Group
+        return Group(B(j['s']))
     if k in ('and', 'or'):
         cls = glom.And if k == 'and' else glom.Or
         kw = {}
